@@ -566,9 +566,9 @@ func (w *Worker) intrinsic(s *State, f *Frame, name string, fn *ssa.Function, ar
 		return adv(Bool(true))
 	case name == modPrefix+"/util.CurrentTimeNano" || name == modPrefix+"/util.CurrentTimeMillis":
 		ms := name == modPrefix+"/util.CurrentTimeMillis"
-		if len(s.threads) > 1 && s.ghost["flag/threadclock"] != nil {
+		if len(s.threads) > 1 && s.ghost["flag/threadclock"] != nil && !(ghostInt(s, "flag/threadclock") == 3 && clockFrozenFor(f)) {
 			v := w.fresh(s, fmt.Sprintf("clk_t%d", s.cur), 64)
-			if s.clock != nil && ghostInt(s, "flag/threadclock") == 2 {
+			if s.clock != nil && ghostInt(s, "flag/threadclock") >= 2 {
 				w.assume(s, Cmp("bvule", s.clock, v))
 			}
 			w.assume(s, Cmp("bvult", v, BV(64, 1<<60)))
@@ -773,4 +773,10 @@ func (w *Worker) mathFn(s *State, fn string, args []Value) (Value, bool) {
 	}
 	_ = token.ADD
 	return nil, false
+}
+
+// clockFrozenFor: in clock mode 3 the statistic structures (core/stat/base) read the frozen harness
+// clock, every other reader gets an ordered symbolic value (stated reduction of C12).
+func clockFrozenFor(f *Frame) bool {
+	return strings.HasSuffix(fnPkgPath(f.fn), "core/stat/base")
 }
